@@ -385,7 +385,6 @@ func (r *scriptReader) Read(p []byte) (int, error) {
 	return n, nil
 }
 
-
 // flushStops: a chunk schedule in which every read ends exactly at the end of a document (every
 // `every`-th one): the producer flushes after a document and sends the separating newline with
 // the next one. Encoded as negative absolute positions for scriptReader.
